@@ -293,6 +293,10 @@ const JanetKV *janet_table_to_struct(JanetTable *t) {
 
 JanetTable *janet_table_proto_flatten(JanetTable *t) {
     JanetTable *newTable = janet_table(0);
+    /* table/setproto can build a cyclic prototype chain. Stop when the walk
+     * runs into itself (Brent's cycle detection, no allocation). */
+    JanetTable *mark = NULL;
+    size_t steps = 0, limit = 2;
     while (t) {
         JanetKV *kv = t->data;
         JanetKV *end = t->data + t->capacity;
@@ -302,6 +306,12 @@ JanetTable *janet_table_proto_flatten(JanetTable *t) {
             kv++;
         }
         t = t->proto;
+        if (t == mark) break;
+        if (++steps == limit) {
+            mark = t;
+            steps = 0;
+            limit *= 2;
+        }
     }
     return newTable;
 }
